@@ -75,7 +75,16 @@ def check_run(ctx, case, data, res, expected, tmpdir):
                 key = "saved-stream-blocks-out-of-order-or-altered"
             ctx.violation(key, dict(w, saved_samples=len(frames) // bps, read_samples=len(want) // bps, cache_size_sec=case["saver"]["cache_size_sec"]))
             return False
-        if want != data[: len(want)] or (len(want) != len(data) and not case.get("stop")):
+        if case.get("hop"):
+            ctx.count("saver_runs_over_an_overlapping_reader")
+            from ..models import frame as FR
+
+            total = len(data) // bps
+            model = [data[a * bps : b * bps] for a, b in FR.blocks(total, case["block"], case["hop"])]
+            if not case.get("stop") and blocks != model:
+                ctx.violation("overlapping-reader-did-not-produce-the-model-blocks", dict(w, produced=len(blocks), model=len(model)))
+                return False
+        elif want != data[: len(want)] or (len(want) != len(data) and not case.get("stop")):
             ctx.violation("reader-did-not-produce-the-whole-input", dict(w, produced=len(want), input=len(data)))
             return False
     for o in res.observers:
@@ -88,7 +97,7 @@ def check_run(ctx, case, data, res, expected, tmpdir):
                 return False
             sil = bytes(round(case["silence"] * rate) * bps)
             want = sil.join(b for _, _, _, b in expected)
-            if case.get("short_reads") or case.get("stop"):
+            if case.get("short_reads") or case.get("stop") or case.get("hop"):
                 ref = None if not expected else want  # the API comparison needs the plain fixed-block, unstopped stream
             else:
                 ref = auditok.split_and_join_with_silence(data, case["silence"], **AC.split_kwargs(case), **AC.audio_kwargs(case))
@@ -144,6 +153,10 @@ def shape_case(rng, case):
     """push the case towards the situations named in the property."""
     if rng.random() < 0.25 and case["block"] > 1:
         case["short_reads"] = rng.getrandbits(32) or 1  # blocks of varying size before the end of the stream
+    if case.get("hop"):
+        case.pop("short_reads", None)
+    elif rng.random() < 0.1 and case["block"] > 1 and not case.get("short_reads") and not case.get("partial"):
+        case["hop"] = rng.randint(1, case["block"] - 1)  # overlapping analysis windows: the saved stream is the sequence of blocks READ
     if rng.random() < 0.2 and not case.get("short_reads"):
         case["stop"] = {"after_reads": rng.randint(0, len(case["v"]) + 1), "extra_steps": rng.choice((0, 1, 3))}
     r = rng.random()
@@ -175,7 +188,7 @@ def one(ctx, case, tmpdir):
     if case.get("stop"):
         # a stop arrived: the files must agree with what was actually read (C14 decides the stop itself)
         ctx.count("runs_with_a_stop")
-        read = b"".join(b for b in res.inner_blocks if b is not None)
+        read = P.consumed_audio(case, res.inner_blocks)
         expected = P.split_reference(read, case) if not case.get("short_reads") else [(d.id, d.start, d.end, None) for d in res.detections]
         if case.get("short_reads"):
             case = dict(case, observers=[k for k in case["observers"]])
@@ -313,6 +326,36 @@ def huge_backlog(ctx, tmpdir):
     ctx.maxi("queue_depth", res.sched.max_queue_depth)
     ctx.case(stable_hash(["backlog", nblocks, case["saver"], res.sched.steps]), True)
     check_run(ctx, case, data, res, expected, tmpdir)
+
+
+def big_audio(ctx, tmpdir):
+    """byte-size thresholds (64 KiB, 1 MiB ...) inside the observers' or the saver's buffers: few blocks, but large ones."""
+    rng = ctx.rng("big-audio")
+    case = P.random_pipeline_case(rng, max_windows=10, want_saver=True)
+    rate = rng.choice((16000, 44100, 48000))
+    width, channels = rng.choice(((2, 1), (2, 2), (4, 2)))
+    block = rate // rng.choice((10, 20))
+    nwin = rng.randint(50, 90)
+    v = []
+    while len(v) < nwin:
+        v += [1] * rng.randint(2, 9) + [0] * rng.randint(2, 5)
+    case.update(rate=rate, width=width, channels=channels, block=block, w=block / rate, partial=0, uc=None, thr=45.0, random_pcm=False,
+                min_len=1, max_len=rng.choice((4, 12, 40)), max_sil=rng.choice((0, 1)), drop=rng.random() < 0.5, strict=False, v=v,
+                observers=["joiner", "regionsaver", "rec"], observer_timeouts=[0.2, 0.0005, 0.2], silence=rng.choice((0.25, 0.1, 1 / rate)),
+                stop=None, line_p=0.0, strategy=rng.choice(("uniform", "sticky", "starve")))
+    case["saver"] = {"cache_size_sec": rng.choice((0.5, 0.01, 3.0, 1000.0))}
+    built = AC.build_audio(case)
+    if built is None:
+        return
+    data, _ = built
+    expected = P.split_reference(data, case)
+    P.clean_dir(tmpdir)
+    res = P.run_pipeline(case, data, tmpdir)
+    ctx.count("big_audio_runs")
+    ctx.maxi("bytes_in_one_pipeline_run", len(data))
+    ctx.maxi("bytes_of_detected_audio_in_one_run", sum(len(e[3]) for e in expected))
+    ctx.case(stable_hash(["big", rate, width, channels, nwin, res.sched.decisions[:200]]), bool(expected))
+    check_run(ctx, dict(case, v=case["v"]), data, res, expected, tmpdir)
 
 
 def export_cases(ctx, tmpdir):
@@ -467,7 +510,7 @@ def run_shard(ctx):
     try:
         rng = ctx.rng("runs")
         for i in range(conf["runs"]):
-            case = shape_case(rng, P.random_pipeline_case(rng, max_windows=30, want_saver=(i % 4 != 3)))
+            case = shape_case(rng, P.random_pipeline_case(rng, max_windows=30, want_saver=(i % 4 != 3), allow_hop=True))
             one(ctx, case, tmpdir)
             if ctx.out_of_time():
                 break
@@ -478,6 +521,9 @@ def run_shard(ctx):
         if ctx.shard == 6 or (ctx.tier == "thorough" and ctx.shard in (8, 9)):
             timeout_marathon(ctx, tmpdir)
         two_pipelines_at_once(ctx, tmpdir)
+        if ctx.shard in (4, 9) or ctx.tier == "thorough":
+            for _ in range(1 if ctx.tier == "quick" else 6):
+                big_audio(ctx, tmpdir)
         systematic(ctx, conf, tmpdir)
         stress(ctx, conf, tmpdir)
         rng = ctx.rng("lines")
@@ -502,7 +548,7 @@ def inconclusive(merged, tier):
     c = merged["counters"]
     need = ["scheduled_runs", "saver_runs", "blocks_checked", "joiner_files_checked", "joiner_files_with_zero_events",
             "region_dirs_checked", "region_files_checked", "runs_on_empty_stream", "runs_on_event_free_stream", "runs_with_a_stop", "runs_with_short_reads",
-            "line_mode_runs", "instruction_mode_runs", "all_module_line_mode_runs", "timeouts_fired", "systematic_schedules", "systematic_pipelines_fully_enumerated", "stress_runs", "stress_files_checked", "huge_backlog_runs", "raw_export_runs", "unencodable_export_runs", "two_pipeline_runs", "timeout_marathon_runs"]
+            "big_audio_runs", "saver_runs_over_an_overlapping_reader", "line_mode_runs", "instruction_mode_runs", "all_module_line_mode_runs", "timeouts_fired", "systematic_schedules", "systematic_pipelines_fully_enumerated", "stress_runs", "stress_files_checked", "huge_backlog_runs", "raw_export_runs", "unencodable_export_runs", "two_pipeline_runs", "timeout_marathon_runs"]
     out = [f"monitor never observed {k}" for k in need if c.get(k, 0) == 0]
     if c.get("max:queue_depth", 0) < 16384:
         out.append("the writer never lagged by more than 16384 blocks")
